@@ -100,6 +100,7 @@ def classify(unit, g, res):
             continue
         # definite verification failure: find label and function
         label, clause_text, site, fn, kind = "", "", "", None, None
+        clause_hit = False
         prim = next((s for s in ours if s.get("is_primary")), ours[0] if ours else None)
         for s in ours:
             o = g.origin[s["line_start"] - 1]
@@ -108,6 +109,7 @@ def classify(unit, g, res):
                 label = o.get("label", "")
                 clause_text = o.get("text", "")
                 kind = o.get("clause")
+                clause_hit = True
         for s in ours:
             o = g.origin[s["line_start"] - 1]
             if o.get("kind") in ("src",) or (o.get("kind") in ("lemma", "prelude") and not label):
@@ -126,7 +128,7 @@ def classify(unit, g, res):
                 if o.get("kind") == "clause":
                     fn = [0, 0, o.get("fn"), "extracted", None, "exec"]
         fnname = fn[2] if fn else "?"
-        if not label and fn is not None:
+        if not label and fn is not None and not clause_hit:
             if fn[3] == "lemma" and fn[4]:
                 label = fn[4]
                 kind = "lemma"
@@ -226,7 +228,7 @@ def run_unit(name, seed, tier):
                         fr = us.fn_of_line(s["line_start"])
                         if fr:
                             failed_fns.add(fr[2])
-            expect = [sp.rename or re.sub(r"^(server|sdk):(?!:)", "", sp.key) for sp in us.specs if not sp.no_smoke]
+            expect = [(sp.rename or re.sub(r"^(server|sdk):(?!:)", "", sp.key)) + "__smoke" for sp in us.specs if not sp.no_smoke]
             vac = [f for f in expect if f not in failed_fns]
             r["smoke"] = dict(functions=len(expect), vacuous=vac)
             if vac:
@@ -264,7 +266,7 @@ def check_property(prop, tier, seed, quiet=False):
     with cf.ThreadPoolExecutor(max_workers=min(8, len(units))) as ex:
         results = list(ex.map(lambda n: run_unit(n, seed, tier), units))
     known = load_known()
-    undecided, violations, kf = [], [], []
+    undecided, violations, kf, helper_fail = [], [], [], []
     obligations, discharged = [], []
     fns, rewrites, assumptions, times, samples, lemmas = [], [], [], {}, [], []
     bounded = []
@@ -294,13 +296,21 @@ def check_property(prop, tier, seed, quiet=False):
             k = match_known(prop, x, known)
             if k:
                 kf.append((k, x))
-            else:
+            elif ".shape." in x["label"] or x["label"].endswith(".helper"):
+                helper_fail.append((r["unit"], x))
+            elif not any(v[1]["label"] == x["label"] and v[1]["fn"] == x["fn"] for v in violations):
                 violations.append((r["unit"], x))
         fns += [dict(unit=r["unit"], **f) for f in r["functions"]]
         rewrites += [dict(unit=r["unit"], **w) for w in r["rewrites"]]
         assumptions += [f"{a['file']}:{a['line']}: {a['text']}" for a in r["assumptions"]]
         times.update(r["times"])
         lemmas += r.get("lemmas", [])
+    for unit, x in helper_fail:
+        # a helper (transcript) clause no longer matches the code: the relational lemmas that rest on it
+        # (monotonicity) are no longer connected to the code => undecided, never an alarm by itself
+        msg = f"[{unit}] helper clause {x['label']} no longer matches {x['fn']} (lemmas resting on it are undecided)"
+        if msg not in undecided:
+            undecided.append(msg)
     obligations = sorted(set(obligations))
     discharged = sorted(set(discharged))
     # kani harnesses (complete proofs on the compiled crate) registered for this property
@@ -439,12 +449,22 @@ def main():
     ap.add_argument("--tier", default=os.environ.get("VERIF_TIER", "quick"))
     ap.add_argument("--replay")
     ap.add_argument("--explain")
+    ap.add_argument("--unit", help="run one unit and print every failure (authoring aid; writes no evidence)")
     a = ap.parse_args()
     seed = int(os.environ.get("VERIF_SEED", "0") or 0)
     if a.explain:
         explain(a.explain); return 0
     if a.replay:
         return replay(a.replay)
+    if a.unit:
+        r = run_unit(a.unit, seed, a.tier)
+        for x in r["refuted"]:
+            print(f"REFUTED label={x['label'] or '-'} fn={x['fn']} kind={x['kind']} msg={x['message']}\n   site: {x['site']}\n   clause: {x['clause']}")
+        for u in r["undecided"]:
+            print("UNDECIDED", u[:1500])
+        print(f"unit {a.unit}: verus verified={r['verified']} errors={r['errors']} labels={len(r['labels'])} "
+              f"functions={len(r['functions'])} smoke={r['smoke']} wall={r['wall']:.1f}s")
+        return 1 if r["refuted"] else (2 if r["undecided"] else 0)
     return check_property(a.prop, a.tier, seed)
 
 
